@@ -201,6 +201,8 @@ def main(chk):
     c06 = importlib.util.module_from_spec(spec6)
     spec6.loader.exec_module(c06)
     c06.rule_count(chk, M.find_class(M.cy(PA), 'ParticleArray'))
+    # ... and the real particles must be the first ones whenever something is dumped: every mutator that changes count or order re-aligns (rule shared with C06)
+    c06.rule_align(chk, M.find_class(M.cy(PA), 'ParticleArray'))
     # the npz reader rebuilds every array through ParticleArray(**dictionaries) -> _initialize (rule shared with C06)
     c06.rule_initialize_model(chk)
     # the readers hand the recorded type to add_property: the array made for it has that type whatever the element type of the data read (rule shared with C06)
